@@ -1252,6 +1252,47 @@ int main(int argc, char** argv) {
            (int)wuffs_base__cpu_arch__have_x86_avx2(), (int)wuffs_base__cpu_arch__have_x86_bmi2());
     return 0;
   }
+  if (argc == 2) {
+    // stdh <pkg> < file > decoded: one-shot decode with the named io_transformer (used by C17 for std/lzma, std/xz)
+    int kind = -1;
+    for (int i = 0; i < g_nkinds; i++) {
+      size_t n = strlen(argv[1]);
+      if (!strncmp(g_kinds[i].name, argv[1], n) && g_kinds[i].name[n] == '.' && g_kinds[i].iface == IF_IOT) kind = i;
+    }
+    if (kind < 0) { fprintf(stderr, "stdh: no io_transformer package %s\n", argv[1]); return 2; }
+    size_t cap = 1 << 16, len = 0;
+    uint8_t* in = (uint8_t*)malloc(cap);
+    while (1) {
+      if (len == cap) { cap *= 2; in = (uint8_t*)realloc(in, cap); }
+      ssize_t r = read(0, in + len, cap - len);
+      if (r <= 0) break;
+      len += (size_t)r;
+    }
+    memset(&S, 0, sizeof S);
+    S.k = &g_kinds[kind];
+    S.pay = in; S.paylen = len;
+    S.src_exact = 1; S.src_close = 1; S.work_mode = 0;
+    { uint64_t c = 64ull * len + 65536; S.dst_cap = (uint32_t)(c > (1u << 26) ? (1u << 26) : c); }
+    S.objsz = S.k->size_of();
+    S.obj = malloc(S.objsz);
+    wuffs_base__status st = S.k->init(S.obj, S.objsz, WUFFS_VERSION, 0);
+    if (st.repr) { fprintf(stderr, "stdh: initialize: %s\n", st.repr); return 3; }
+    S.iface = S.k->upcast(S.obj);
+    drive_iot(1u << 22);
+    if (!write_full(1, S.out, S.outlen)) return 2;
+    // the summary record sits in g_resp; the final status is the first string of the 'F' record
+    const char* final = NULL;
+    for (size_t p = 0; p + 5 <= g_resplen;) {
+      uint8_t typ = g_resp[p];
+      uint32_t n = (uint32_t)g_resp[p + 1] | ((uint32_t)g_resp[p + 2] << 8) | ((uint32_t)g_resp[p + 3] << 16) | ((uint32_t)g_resp[p + 4] << 24);
+      if (typ == 'F') { uint32_t sl = (uint32_t)g_resp[p + 5] | ((uint32_t)g_resp[p + 6] << 8); if (sl) { static char buf[256]; memcpy(buf, g_resp + p + 9, sl < 255 ? sl : 255); final = buf; } }
+      p += 5 + n;
+    }
+    if (final) { fprintf(stderr, "stdh: final status %s\n", final); return 3; }
+    if (g_nviol) { fprintf(stderr, "stdh: %d contract violations\n", g_nviol); return 3; }
+    if (S.src.meta.pos + S.src.meta.ri != len) { fprintf(stderr, "stdh: consumed %llu of %zu bytes\n", (unsigned long long)(S.src.meta.pos + S.src.meta.ri), len); return 3; }
+    return 0;
+  }
   signal(SIGPROF, on_alarm);
   while (1) {
     uint8_t hdr[4];
